@@ -642,8 +642,13 @@ impl ArrayImpl {
         })
     }
 
-    /// Returns the sum of the non-null values (the raw slot under a NULL is not a value).
+    /// Returns the sum of the non-null values (the raw slot under a NULL is not a value),
+    /// NULL if there is none.
     pub fn sum(&self) -> DataValue {
+        // SUM of no value is NULL, not a typed zero
+        if self.count() == 0 {
+            return DataValue::Null;
+        }
         match self {
             Self::Int16(a) => DataValue::Int16(a.nonnull_iter().sum()),
             Self::Int32(a) => DataValue::Int32(a.nonnull_iter().sum()),
